@@ -13,6 +13,9 @@ from pbt import treemodel
 LEVEL_NAMES = ['class', 'subclass', 'supertype', 'cluster', 'subcluster']
 PREFIX = {'class': 'cs', 'subclass': 'sc', 'supertype': 'st', 'cluster': 'cl', 'subcluster': 'sb',
           'level': 'la', 'level_1': 'lb', 'level_12': 'lc', 'level_123': 'ld', 'level_1234': 'le'}
+# level names as they appear as obs columns of published reference files
+LEVEL_NAMES_LABEL = ['class_label', 'subclass_label', 'supertype_name', 'cluster_label', 'cluster_alias']
+PREFIX.update({'class_label': 'cs', 'subclass_label': 'sc', 'supertype_name': 'st', 'cluster_label': 'cl', 'cluster_alias': 'sb'})
 # level names each of which is a string prefix of the next
 LEVEL_NAMES_NESTED = ['level', 'level_1', 'level_12', 'level_123', 'level_1234']
 
@@ -80,6 +83,8 @@ def trees(draw, max_levels=4, max_leaves=12, min_levels=1, allow_odd=True,
     levels = LEVEL_NAMES[-n_levels:] if draw(st.booleans()) else LEVEL_NAMES[:n_levels]
     if n_levels <= len(LEVEL_NAMES_NESTED) and draw(st.integers(0, 5)) == 0:
         levels = LEVEL_NAMES_NESTED[:n_levels] if draw(st.booleans()) else LEVEL_NAMES_NESTED[:n_levels][::-1]
+    elif draw(st.integers(0, 5)) == 0:
+        levels = LEVEL_NAMES_LABEL[-n_levels:] if draw(st.booleans()) else LEVEL_NAMES_LABEL[:n_levels]
     namer = dict(namer, levels=list(levels))
     data = {'hierarchy': list(levels)}
     names = [[make_name(namer, li, i) for i in range(w)] for li, w in enumerate(widths)]
